@@ -27,6 +27,8 @@
 #include "ola/dmx/RunLengthEncoder.h"
 #include "ola/network/IPV4Address.h"
 #include "ola/network/Socket.h"
+#include "ola/timecode/TimeCode.h"
+#include "ola/timecode/TimeCodeEnums.h"
 #include "ola/Clock.h"
 #include "ola/acn/CID.h"
 #include "ola/io/SelectServer.h"
@@ -872,7 +874,10 @@ static string do_hist(const vector<string> &a) {
     }
     if (tk[0] == 'x') {
       if (es_t.get()) { es_t->SetUniverse(H_B8[slot]); es_t->SetType(ola::plugin::espnet::ESPNET_NODE_TYPE_IO); }
-      if (an_t.get()) an_t->SetLongName("long name " + vh::str(slot));
+      if (an_t.get()) {
+        an_t->SetLongName("long name " + vh::str(slot));
+        an_t->SendTimeCode(ola::timecode::TimeCode(ola::timecode::TIMECODE_FILM, 1, 2, 3, slot));
+      }
       if (e1_t.get()) e1_t->StartStream(H_E1[slot]);
       if (sa_t.get()) sa_t->SetPortParameters(1, SandNetNode::SANDNET_PORT_MODE_IN, 2, H_B8[slot]);
       continue;
@@ -1145,6 +1150,99 @@ static string do_esd(const vector<string> &a) {
   return "dbuf=" + buf_s(dst);
 }
 
+// ---------------------------------------------------------------- E1.31: every send entry point on one stream
+static string do_e1x(const vector<string> &a) {
+  // e1x <rev2> <frame/frame/...> <tokens>
+  //   s<k> SendDMX   o<k>_<off> SendDMXWithSequenceOffset   p<k>_<prio> SendDMX with a priority
+  //   v<k> SendDMX preview   z SendStreamTerminated   n SetSourceName   x StartStream
+  using ola::acn::E131Node;
+  bool rev2 = vh::num(a[1]) != 0;
+  vector<string> pool_s = vh::split(a[2], '/');
+  vector<vector<uint8_t> > pool;
+  for (size_t i = 0; i < pool_s.size(); i++) pool.push_back(vh::unhex(pool_s[i]));
+  vector<string> script = vh::split(a[3], ',');
+  ola::io::SelectServer ss;
+  E131Node::Options opts;
+  opts.use_rev2 = rev2;
+  opts.source_name = "entry";
+  uint8_t cb[16];
+  for (int z = 0; z < 16; z++) cb[z] = z + 1;
+  E131Node txn(&ss, "", opts, ola::acn::CID::FromData(cb));
+  for (int z = 0; z < 16; z++) cb[z] = 0x80 + z;
+  E131Node rxn(&ss, "", opts, ola::acn::CID::FromData(cb));
+  txn.m_interface = iface(); rxn.m_interface = iface();
+  txn.m_socket.Init(); rxn.m_socket.Init();
+  const unsigned universe = 9;
+  DmxBuffer rx;
+  uint8_t prio_out = 0;
+  rxn.m_dmp_inflator.SetHandler(universe, &rx, &prio_out, ola::NewCallback(&on_data));
+  // reference bookkeeping of the E1.31 rules: the stream's sequence advances on regular sends only;
+  // the receiver accepts a packet unless its sequence is 0..19 behind the last accepted one
+  bool tracked = false; int s = 0; int r = -1;
+  string trace;
+  uint32_t h = 2166136261u;
+  bool all = true;
+  for (size_t i = 0; i < script.size(); i++) {
+    const string &tk = script[i];
+    if (tk.empty()) continue;
+    char c = tk[0];
+    if (c == 'n') { txn.SetSourceName(universe, "renamed"); if (!tracked) { tracked = true; s = 0; } continue; }
+    if (c == 'x') { txn.StartStream(universe); if (!tracked) { tracked = true; s = 0; } continue; }
+    unsigned k = 0; long arg = 0;
+    size_t us = tk.find('_');
+    if (tk.size() > 1) k = vh::num(tk.substr(1, us == string::npos ? string::npos : us - 1));
+    if (us != string::npos) arg = vh::snum(tk.substr(us + 1));
+    g_sent.clear();
+    bool is_data = true, preview = false;
+    int q = 0;
+    vector<uint8_t> f;
+    if (c == 'z') {
+      if (rev2) continue;
+      is_data = false;
+      q = tracked ? s : 0;
+      txn.SendStreamTerminated(universe, DmxBuffer(), 100);
+      if (tracked) s = (s + 1) & 255;
+    } else {
+      if (k >= pool.size()) continue;
+      f = pool[k];
+      DmxBuffer tx;
+      tx_fill(&tx, f, NULL);
+      if (!tracked) { tracked = true; s = 0; }
+      if (c == 's') { q = s; txn.SendDMX(universe, tx, 100, false); s = (s + 1) & 255; }
+      else if (c == 'p') { q = s; txn.SendDMX(universe, tx, arg, false); s = (s + 1) & 255; }
+      else if (c == 'v') { q = s; preview = true; txn.SendDMX(universe, tx, 100, true); s = (s + 1) & 255; }
+      else if (c == 'o') {
+        q = (s + arg) & 255;
+        txn.SendDMXWithSequenceOffset(universe, tx, arg, 100, false);
+        if (arg == 0) s = (s + 1) & 255;
+      } else continue;
+    }
+    if (g_sent.size() != 1) { trace += "-"; all = false; continue; }
+    int before = g_calls;
+    g_rx = g_sent[0]; g_rx_valid = true; set_source();
+    rxn.m_incoming_udp_transport.Receive();
+    bool ran = g_calls == before + 1;
+    // what the rules demand
+    bool expect = false;
+    int d = static_cast<int8_t>(q - r);
+    bool old = r >= 0 && d <= 0 && d > -20;
+    if (is_data) {
+      if (!(preview && !rev2) && !old) { expect = true; r = q; }
+    } else if (r >= 0 && !old) {
+      r = -1;
+    }
+    bool ok = expect ? (ran && buf_s(rx) == vh::hex(f)) : !ran;
+    if (!ok) all = false;
+    string got = (ran ? "1:" : "0:") + buf_s(rx);
+    h = fnv(h, vector<uint8_t>(got.begin(), got.end()));
+    h = fnv(h, g_sent[0]);
+    trace += ok ? (expect ? "1" : ".") : "0";
+  }
+  char hb[16];
+  snprintf(hb, sizeof(hb), "%08x", h);
+  return "t=" + trace + ";h=" + hb + ";spec=" + vh::str(all ? 1 : 0);
+}
+
 static string handle(const string &p) {
   vector<string> a = vh::split(p);
   const string &op = a[0];
@@ -1163,6 +1261,7 @@ static string handle(const string &p) {
   if (op == "anm" && a.size() == 4) return do_anm(a);
   if (op == "e1c" && a.size() == 4) return do_e1c(a);
   if (op == "esr" && a.size() == 5) return do_esr(a);
+  if (op == "e1x" && a.size() == 4) return do_e1x(a);
   if (op == "esd" && a.size() == 3) return do_esd(a);
   if (op == "dec" && a.size() == 4) return do_dec(a);
   if (op == "sn" && a.size() == 7) return do_sn(a);
